@@ -210,9 +210,23 @@ void Parser::noteFailedParse(LexedTokens::IndexType tkIdx)
 
 void Parser::diagnoseFailedParseIfUndiagnosed()
 {
-    if (failedParseTkIdx_ == LexedTokens::invalidIndex()
-            || !tree_->diagnostics().empty())
+    if (failedParseTkIdx_ == LexedTokens::invalidIndex())
         return;
+
+    // Diagnosed already, unless all there is are warnings and the diagnostics
+    // about where a statement stands (a `case' outside a switch, ...), which
+    // say nothing about tokens that weren't parsed.
+    for (const auto& diag : tree_->diagnostics()) {
+        if (diag.severity() != DiagnosticSeverity::Error)
+            continue;
+        const auto& id = diag.descriptor().id();
+        if (id != DiagnosticsReporter::ID_of_UnexpectedCaseLabelOutsideSwitch
+                && id != DiagnosticsReporter::ID_of_UnexpectedDefaultLabelOutsideSwitch
+                && id != DiagnosticsReporter::ID_of_UnexpectedContinueOutsideLoop
+                && id != DiagnosticsReporter::ID_of_UnexpectedBreakOutsideSwitchOrLoop) {
+            return;
+        }
+    }
     diagReporter_.UnexpectedTokensOfFailedParse(failedParseTkIdx_);
 }
 
